@@ -223,6 +223,15 @@ def strat_seq():
         st.integers(300_000, 2 ** 32 - 400_000), HOST_ZONES)
 
 
+def strat_pairs_random():
+    """Every ordered pair of operation kinds again, now with generated arguments, sessions, gaps and host zone."""
+    client_of = lambda k: 0 if ops.api_type(k) == 1 else 1  # noqa
+    pair = st.tuples(st.sampled_from(ops.KINDS), st.sampled_from(ops.KINDS)).flatmap(
+        lambda ab: st.tuples(op_strategy([ab[0]], client_of), op_strategy([ab[1]], client_of)))
+    return st.builds(lambda cfg, two, t0, z: {"clients": cfg, "t0": t0, "ops": list(two), "zone": z},
+                     client_cfgs([1, 2]), pair, st.integers(300_000, 2 ** 32 - 400_000), HOST_ZONES)
+
+
 def strat_interleaved():
     def for_types(types):
         kinds_of = {1: ops.KINDS1, 2: ops.KINDS2}
@@ -237,6 +246,8 @@ def subchecks(tier):
     big = tier == "thorough"
     return [
         Sub("pairs", make_body("pairs"), cases=cases_pairs, shards=16, exhaustive=True),
+        Sub("pairs-random-args", make_body("pairs-random-args"), strategy=strat_pairs_random, n=256 * 50 if big else 600,
+            shards=16 if big else 2),
         Sub("sequences", make_body("sequences"), strategy=strat_seq, n=60_000 if big else 800, shards=16 if big else 4),
         Sub("interleaved", make_body("interleaved"), strategy=strat_interleaved, n=60_000 if big else 1000, shards=16 if big else 4),
     ]
